@@ -56,31 +56,40 @@ theorem parse_amount_negative_only_by_minus (s : List Char) (v : Int) (h : parse
     split at hr
     · rename_i ds
       cases hp : parseDigits ds with
-      | none => simp [hp] at hr
-      | some n => simp [hp] at hr; exact ⟨ds, n, hp, hr.symm, rfl⟩
+      | none => rw [hp] at hr; cases hr
+      | some n =>
+        rw [hp] at hr; simp only [Option.map] at hr
+        injection hr with hr; exact ⟨ds, n, hp, hr.symm, rfl⟩
     · rename_i ds
       cases hp : parseDigits ds with
-      | none => simp [hp] at hr
-      | some n => simp [hp] at hr; omega
-    · rename_i ds _ _
-      cases hp : parseDigits ds with
-      | none => simp [hp] at hr
-      | some n => simp [hp] at hr; omega
+      | none => rw [hp] at hr; cases hr
+      | some n =>
+        rw [hp] at hr; simp only [Option.map] at hr
+        injection hr with hr; omega
+    · cases hp : parseDigits r with
+      | none => rw [hp] at hr; cases hr
+      | some n =>
+        rw [hp] at hr; simp only [Option.map] at hr
+        injection hr with hr; omega
   unfold parseAmount at h
   split at h
   · injection h with h; omega
-  · unfold stripHexPrefix at h
-    split at h
-    · split at h
-      · cases h
-      · obtain ⟨ds, n, h1, h2, h3⟩ := key _ h
-        exact ⟨ds, n, h1, h2, Or.inr (Or.inl (by rw [h3]))⟩
-    · split at h
-      · cases h
-      · obtain ⟨ds, n, h1, h2, h3⟩ := key _ h
-        exact ⟨ds, n, h1, h2, Or.inr (Or.inr (by rw [h3]))⟩
-    · obtain ⟨ds, n, h1, h2, h3⟩ := key _ h
-      exact ⟨ds, n, h1, h2, Or.inl h3⟩
+  · split at h
+    · cases h
+    · rename_i r hs
+      obtain ⟨ds, n, h1, h2, h3⟩ := key r h
+      unfold stripHexPrefix at hs
+      split at hs
+      · split at hs
+        · cases hs
+        · injection hs with hs; subst hs
+          exact ⟨ds, n, h1, h2, Or.inr (Or.inl (by rw [h3]))⟩
+      · split at hs
+        · cases hs
+        · injection hs with hs; subst hs
+          exact ⟨ds, n, h1, h2, Or.inr (Or.inr (by rw [h3]))⟩
+      · injection hs with hs; subst hs
+        exact ⟨ds, n, h1, h2, Or.inl h3⟩
 
 example : parseAmount "-60".toList = some (-60) := by decide
 example : parseAmount "+5".toList = some 5 := by decide
@@ -139,7 +148,8 @@ theorem nonNeg_apply {fixed : Bool} {stable s s' : St} {op : Op} (h : apply fixe
   | issue sd rc hsh code m amt =>
     obtain ⟨a, r, s1, s2, tid, newEq, _, _, _, _, h1, h2, h3, _⟩ := issue_ok h
     subst h3
-    exact nonNeg_putEquity h2 (nonNeg_putSupply h1 N)
+    have N2 : NonNeg s2 := nonNeg_putEquity h2 (nonNeg_putSupply h1 N)
+    exact N2
   | replenish sd rc code id amt =>
     obtain ⟨a, r, s1, _, _, _, _, _, _, _, h1, h2⟩ := replenish_ok h
     exact nonNeg_putSupply h2 (nonNeg_putEquity h1 N)
@@ -191,5 +201,566 @@ theorem nonNeg_empty : NonNeg St.empty := by
   constructor
   · intro a id c e h; simp [St.empty] at h
   · intro x r h; simp [St.empty] at h
+
+/-! ## a transfer debits nobody but its sender -/
+
+theorem transfer_debit_core {fixed : Bool} {stable s s' : St} {sd rc id ck : Nat} {amt : Option Int}
+    (h : transfer fixed stable s sd rc id ck amt = .ok s')
+    (hg : fixed = true ∨ ∀ a, amt = some a → 0 ≤ a) :
+    ∀ a i c e, s.equity a i = some (c, e) → (a, i) ≠ (sd, id) →
+      ∃ e', s'.equity a i = some (c, e') ∧ e ≤ e' := by
+  obtain ⟨am, c0, e0, r, hamt, hse, hpos, hfix, hr, hfz, hle, hcase⟩ := transfer_ok h
+  have hnn : 0 ≤ am := by
+    rcases hg with hf | hg
+    · exact hfix hf
+    · exact hg am hamt
+  intro a i c e hai hne
+  rcases hcase with rfl | hm
+  · exact ⟨e, hai, by omega⟩
+  · obtain ⟨s1, c', e', h1, hs1, h2⟩ := moveEquity_ok hm
+    obtain ⟨_, _, _, he2⟩ := putEquity_ok h2
+    have hamount : 0 ≤ (if r.divisible = true then am else e0) := by split <;> omega
+    have hk2 : ¬ (a = sd ∧ i = id) := fun ⟨x, y⟩ => hne (by rw [x, y])
+    rw [he2]; simp only [hk2, if_false]
+    rcases h1 with ⟨hrc, h1⟩ | ⟨hrc, h1⟩
+    · obtain ⟨_, _, _, he1⟩ := putEquity_ok h1
+      rw [he1]
+      by_cases hk1 : a = rc ∧ i = id
+      · simp only [hk1, and_self, if_true]
+        obtain ⟨rfl, rfl⟩ := hk1
+        unfold creditEntry; rw [hai]
+        exact ⟨_, rfl, by omega⟩
+      · simp only [hk1, if_false]; exact ⟨e, hai, by omega⟩
+    · obtain ⟨_, _, _, he1, _, _⟩ := putSupply_ok h1
+      rw [he1]; exact ⟨e, hai, by omega⟩
+
+/-- FULL theorem, live model (`transferFixed`): whatever the amount text, a successful transfer leaves every
+    entry other than the sender's own (sender, id) entry in place, with the same asset code and an amount
+    that did not decrease -/
+theorem transfer_only_debits_sender (stable s s' : St) (sd rc id ck : Nat) (amt : Option Int)
+    (h : transferFixed stable s sd rc id ck amt = .ok s') :
+    ∀ a i c e, s.equity a i = some (c, e) → (a, i) ≠ (sd, id) →
+      ∃ e', s'.equity a i = some (c, e') ∧ e ≤ e' :=
+  transfer_debit_core h (Or.inl rfl)
+
+/-- the code before commit 71158df: the same holds only under the guard 0 ≤ amount -/
+theorem transfer_only_debits_sender_partial (stable s s' : St) (sd rc id ck : Nat) (amt : Option Int)
+    (h : transferAsIs stable s sd rc id ck amt = .ok s') (hg : ∀ a, amt = some a → 0 ≤ a) :
+    ∀ a i c e, s.equity a i = some (c, e) → (a, i) ≠ (sd, id) →
+      ∃ e', s'.equity a i = some (c, e') ∧ e ≤ e' :=
+  transfer_debit_core h (Or.inr hg)
+
+/-- account 1 creates token 1, issues 100 to Alice (2) and 100 to Bob (3); Bob sends "-60" to Alice -/
+def witnessBlocks : List (List Op) :=
+  [[.create 1 1 1 true true 2 false],
+   [.issue 1 2 10 1 3 (some 100), .issue 1 3 11 1 3 (some 100)],
+   [.transfer 3 2 1 0 (parseAmount "-60".toList)]]
+
+/-- REFUTATION on the faithful model of the code before commit 71158df (parent 2b30546): the transfer is
+    accepted, ALICE (the receiver, who signed nothing) goes 100 → 40, Bob 100 → 160, supply unchanged.
+    Reproduced on the real engine by `hx c12` (signature c12/third-party-debited/negative-amount). -/
+theorem transfer_only_debits_sender_refuted :
+    (runBlocks false St.empty (witnessBlocks.take 2)).equity 2 1 = some (1, 100) ∧
+    (runBlocks false St.empty (witnessBlocks.take 2)).equity 3 1 = some (1, 100) ∧
+    (runBlocks false St.empty witnessBlocks).equity 2 1 = some (1, 40) ∧
+    (runBlocks false St.empty witnessBlocks).equity 3 1 = some (1, 160) ∧
+    ((runBlocks false St.empty witnessBlocks).assets 1).map (·.supply) = some 200 := by decide
+
+/-- the same blocks on the repaired model: the transfer is discarded -/
+example : (runBlocks true St.empty witnessBlocks).equity 2 1 = some (1, 100) ∧
+    (runBlocks true St.empty witnessBlocks).equity 3 1 = some (1, 100) := by decide
+
+/-! ## the supply changes only by the issuer's issue / replenish and a holder's burn -/
+
+/-- `op` is an issue / replenish of asset `x` sent by `issuer` -/
+def IssuerMint (op : Op) (issuer x : Nat) : Prop :=
+  (∃ rc h m a, op = .issue issuer rc h x m a) ∨ (∃ rc i a, op = .replenish issuer rc x i a)
+
+/-- `op` is a transfer to the burn address 0x0 by an account holding a positive entry of asset `x` -/
+def HolderBurn (s : St) (op : Op) (x : Nat) : Prop :=
+  ∃ sd id ck a e, op = .transfer sd 0 id ck a ∧ s.equity sd id = some (x, e) ∧ 0 < e
+
+def NonNegAmt : Op → Prop
+  | .transfer _ _ _ _ (some a) => 0 ≤ a
+  | _ => True
+
+theorem supply_changes_core {fixed : Bool} {stable s s' : St} {op : Op}
+    (h : apply fixed stable s op = .ok s') (hg : fixed = true ∨ NonNegAmt op)
+    (x : Nat) (r r' : AssetRec) (hr : s.assets x = some r) (hr' : s'.assets x = some r')
+    (hne : r'.supply ≠ r.supply) :
+    (r.supply < r'.supply ∧ IssuerMint op r.issuer x) ∨ (r'.supply < r.supply ∧ HolderBurn s op x) := by
+  cases op with
+  | create sd hsh cat dv rp dc fz =>
+    obtain ⟨hn, _, _, ha⟩ := create_ok h
+    rw [ha] at hr'
+    by_cases e : x = hsh
+    · subst e; rw [hn] at hr; cases hr
+    · simp only [e, if_false] at hr'
+      rw [hr] at hr'; injection hr' with hr'; subst hr'; exact absurd rfl hne
+  | issue sd rc hsh code m amt =>
+    obtain ⟨a, r0, s1, s2, tid, newEq, hamt, hpos, hl, _, h1, h2, h3, _⟩ := issue_ok h
+    subst h3
+    obtain ⟨hr0, hiss⟩ := lookup_some hl
+    obtain ⟨_, ha2, _, _⟩ := putEquity_ok h2
+    obtain ⟨r1, hr1, _, _, _, ha1⟩ := putSupply_ok h1
+    rw [setMeta_assets, ha2, ha1] at hr'
+    by_cases e : x = code
+    · subst e
+      simp only [if_true] at hr'
+      rw [hr1] at hr0; injection hr0 with hr0; subst hr0
+      rw [hr] at hr1; injection hr1 with hr1; subst hr1
+      injection hr' with hr'; subst hr'
+      left
+      refine ⟨?_, Or.inl ⟨rc, hsh, m, amt, by rw [hiss]⟩⟩
+      simp only
+      split <;> omega
+    · simp only [e, if_false] at hr'
+      rw [hr] at hr'; injection hr' with hr'; subst hr'; exact absurd rfl hne
+  | replenish sd rc code id amt =>
+    obtain ⟨a, r0, s1, hamt, hpos, hl, _, _, _, _, h1, h2⟩ := replenish_ok h
+    obtain ⟨hr0, hiss⟩ := lookup_some hl
+    obtain ⟨_, ha1, _, _⟩ := putEquity_ok h1
+    obtain ⟨r1, hr1, _, _, _, ha2⟩ := putSupply_ok h2
+    rw [ha2] at hr'
+    rw [ha1] at hr1
+    by_cases e : x = code
+    · subst e
+      simp only [if_true] at hr'
+      rw [hr1] at hr0; injection hr0 with hr0; subst hr0
+      rw [hr] at hr1; injection hr1 with hr1; subst hr1
+      injection hr' with hr'; subst hr'
+      left
+      refine ⟨?_, Or.inr ⟨rc, id, amt, by rw [hiss]⟩⟩
+      simp only
+      omega
+    · simp only [e, if_false] at hr'
+      rw [ha1, hr] at hr'; injection hr' with hr'; subst hr'; exact absurd rfl hne
+  | modify sd code fz =>
+    obtain ⟨r0, hl, _, _, hcase⟩ := modify_ok h
+    rcases hcase with rfl | ⟨b, _, ha⟩
+    · rw [hr] at hr'; injection hr' with hr'; subst hr'; exact absurd rfl hne
+    · rw [ha] at hr'
+      by_cases e : x = code
+      · subst e
+        simp only [if_true] at hr'
+        injection hr' with hr'; subst hr'
+        rw [(lookup_some hl).1] at hr; injection hr with hr; subst hr
+        exact absurd rfl hne
+      · simp only [e, if_false] at hr'
+        rw [hr] at hr'; injection hr' with hr'; subst hr'; exact absurd rfl hne
+  | transfer sd rc id ck amt =>
+    obtain ⟨am, c0, e0, r0, hamt, hse, hpos, hfix, hr0, _, hle, hcase⟩ := transfer_ok h
+    have hnn : 0 ≤ am := by
+      rcases hg with hf | hg
+      · exact hfix hf
+      · subst hamt; exact hg
+    rcases hcase with rfl | hm
+    · rw [hr] at hr'; injection hr' with hr'; subst hr'; exact absurd rfl hne
+    · obtain ⟨s1, c', e', h1, _, h2⟩ := moveEquity_ok hm
+      obtain ⟨_, ha2, _, _⟩ := putEquity_ok h2
+      rw [ha2] at hr'
+      rcases h1 with ⟨_, h1⟩ | ⟨hrc, h1⟩
+      · obtain ⟨_, ha1, _, _⟩ := putEquity_ok h1
+        rw [ha1, hr] at hr'; injection hr' with hr'; subst hr'; exact absurd rfl hne
+      · obtain ⟨r1, hr1, _, _, _, ha1⟩ := putSupply_ok h1
+        rw [ha1] at hr'
+        by_cases e : x = c0
+        · subst e
+          simp only [if_true] at hr'
+          rw [hr1] at hr0; injection hr0 with hr0; subst hr0
+          rw [hr] at hr1; injection hr1 with hr1; subst hr1
+          injection hr' with hr'; subst hr'
+          right
+          subst hrc
+          refine ⟨?_, sd, id, ck, amt, e0, rfl, hse, hpos⟩
+          simp only at hne ⊢
+          split at hne <;> split <;> first | omega | (rename_i h1 h2; exact absurd h1 h2) | (rename_i h1 h2; exact absurd h2 h1)
+        · simp only [e, if_false] at hr'
+          rw [hr] at hr'; injection hr' with hr'; subst hr'; exact absurd rfl hne
+
+/-- `supply_changes_only_by`, FULL theorem for the live model: one transaction changes the recorded supply of an
+    existing asset only upwards by an issue / replenish SENT BY ITS ISSUER, or downwards by a transfer to 0x0
+    sent by an account that holds a positive entry of the asset -/
+theorem supply_changes_only_by (stable s s' : St) (op : Op) (h : apply true stable s op = .ok s')
+    (x : Nat) (r r' : AssetRec) (hr : s.assets x = some r) (hr' : s'.assets x = some r')
+    (hne : r'.supply ≠ r.supply) :
+    (r.supply < r'.supply ∧ IssuerMint op r.issuer x) ∨ (r'.supply < r.supply ∧ HolderBurn s op x) :=
+  supply_changes_core h (Or.inl rfl) x r r' hr hr' hne
+
+/-- the code before the repair: only under the guard 0 ≤ amount -/
+theorem supply_changes_only_by_partial (stable s s' : St) (op : Op) (h : apply false stable s op = .ok s')
+    (hg : NonNegAmt op)
+    (x : Nat) (r r' : AssetRec) (hr : s.assets x = some r) (hr' : s'.assets x = some r')
+    (hne : r'.supply ≠ r.supply) :
+    (r.supply < r'.supply ∧ IssuerMint op r.issuer x) ∨ (r'.supply < r.supply ∧ HolderBurn s op x) :=
+  supply_changes_core h (Or.inr hg) x r r' hr hr' hne
+
+/-- a new asset record appears only through a create, with supply 0 -/
+theorem asset_born_by_create (fixed : Bool) (stable s s' : St) (op : Op) (h : apply fixed stable s op = .ok s')
+    (x : Nat) (r' : AssetRec) (hr : s.assets x = none) (hr' : s'.assets x = some r') :
+    r'.supply = 0 ∧ ∃ cat dv rp dc fz, op = .create r'.issuer x cat dv rp dc fz := by
+  cases op with
+  | create sd hsh cat dv rp dc fz =>
+    obtain ⟨_, _, _, ha⟩ := create_ok h
+    rw [ha] at hr'
+    by_cases e : x = hsh
+    · subst e
+      simp only [if_true] at hr'
+      injection hr' with hr'; subst hr'
+      exact ⟨rfl, cat, dv, rp, dc, fz, rfl⟩
+    · simp only [e, if_false] at hr'; rw [hr] at hr'; cases hr'
+  | issue sd rc hsh code m amt =>
+    obtain ⟨a, r0, s1, s2, tid, newEq, _, _, _, _, h1, h2, h3, _⟩ := issue_ok h
+    subst h3
+    obtain ⟨_, ha2, _, _⟩ := putEquity_ok h2
+    obtain ⟨r1, hr1, _, _, _, ha1⟩ := putSupply_ok h1
+    rw [setMeta_assets, ha2, ha1] at hr'
+    by_cases e : x = code
+    · subst e; rw [hr] at hr1; cases hr1
+    · simp only [e, if_false] at hr'; rw [hr] at hr'; cases hr'
+  | replenish sd rc code id amt =>
+    obtain ⟨a, r0, s1, _, _, _, _, _, _, _, h1, h2⟩ := replenish_ok h
+    obtain ⟨_, ha1, _, _⟩ := putEquity_ok h1
+    obtain ⟨r1, hr1, _, _, _, ha2⟩ := putSupply_ok h2
+    rw [ha2] at hr'
+    rw [ha1] at hr1
+    by_cases e : x = code
+    · subst e; rw [hr] at hr1; cases hr1
+    · simp only [e, if_false] at hr'; rw [ha1, hr] at hr'; cases hr'
+  | modify sd code fz =>
+    obtain ⟨r0, hl, _, _, hcase⟩ := modify_ok h
+    rcases hcase with rfl | ⟨b, _, ha⟩
+    · rw [hr] at hr'; cases hr'
+    · rw [ha] at hr'
+      by_cases e : x = code
+      · subst e; rw [(lookup_some hl).1] at hr; cases hr
+      · simp only [e, if_false] at hr'; rw [hr] at hr'; cases hr'
+  | transfer sd rc id ck amt =>
+    obtain ⟨am, c0, e0, r0, _, _, _, _, hr0, _, _, hcase⟩ := transfer_ok h
+    rcases hcase with rfl | hm
+    · rw [hr] at hr'; cases hr'
+    · obtain ⟨s1, c', e', h1, _, h2⟩ := moveEquity_ok hm
+      obtain ⟨_, ha2, _, _⟩ := putEquity_ok h2
+      rw [ha2] at hr'
+      rcases h1 with ⟨_, h1⟩ | ⟨_, h1⟩
+      · obtain ⟨_, ha1, _, _⟩ := putEquity_ok h1
+        rw [ha1, hr] at hr'; cases hr'
+      · obtain ⟨r1, hr1, _, _, _, ha1⟩ := putSupply_ok h1
+        rw [ha1] at hr'
+        by_cases e : x = c0
+        · subst e; rw [hr] at hr1; cases hr1
+        · simp only [e, if_false] at hr'; rw [hr] at hr'; cases hr'
+
+/-- blocks of the witness for minting by a non-issuer: Alice (2) holds 100 of token 1 and sends "-7" to 0x0 -/
+def burnWitness : List (List Op) :=
+  [[.create 1 1 1 true true 2 false],
+   [.issue 1 2 10 1 3 (some 100)],
+   [.transfer 2 0 1 0 (parseAmount "-7".toList)]]
+
+/-- REFUTATION on the faithful model of the code before commit 71158df: a transfer to the burn address with a
+    negative amount is accepted and RAISES supply and the sender's equity (real engine: signature
+    c12/minted-by-non-issuer/negative-amount-burn) -/
+theorem negative_burn_mints_refuted :
+    (runBlocks false St.empty burnWitness).equity 2 1 = some (1, 107) ∧
+    ((runBlocks false St.empty burnWitness).assets 1).map (·.supply) = some 107 ∧
+    ((runBlocks true St.empty burnWitness).assets 1).map (·.supply) = some 100 := by decide
+
+
+/-! ## the id discipline (what ReplenishAssetTx / IssueAssetTx do NOT enforce) -/
+
+/-- all entries stored under one asset id carry the same asset code -/
+def IdConsistent (s : St) : Prop :=
+  ∀ a b id c1 e1 c2 e2, s.equity a id = some (c1, e1) → s.equity b id = some (c2, e2) → c1 = c2
+
+/-- an entry whose id is itself an asset code carries that code -/
+def OwnCode (s : St) : Prop :=
+  ∀ a id c e r, s.equity a id = some (c, e) → s.assets id = some r → c = id
+
+structure IdInv (s : St) : Prop where
+  idc : IdConsistent s
+  own : OwnCode s
+
+/-- the discipline a transaction has to respect for the sum invariant: tx hashes are fresh (never used as an
+    asset id or asset code before), and a replenish names an id that belongs to its own asset code.
+    The real code checks neither (see `supply_eq_sum_refuted`). -/
+def IdOK (s : St) : Op → Prop
+  | .create _ h _ _ _ _ _ => ∀ a, s.equity a h = none
+  | .issue sd _ h code _ _ =>
+    ∀ r, lookup s sd code = some r → r.category ≠ 1 → (∀ a, s.equity a h = none) ∧ s.assets h = none
+  | .replenish _ _ code id _ =>
+    (∀ a c e, s.equity a id = some (c, e) → c = code) ∧ (∀ r, s.assets id = some r → id = code)
+  | _ => True
+
+theorem idInv_putEquity {s s' : St} {a id c : Nat} {e : Int} (h : putEquity s a id (c, e) = .ok s')
+    (I : IdInv s) (h1 : ∀ b c2 e2, s.equity b id = some (c2, e2) → c2 = c)
+    (h2 : ∀ r, s.assets id = some r → c = id) : IdInv s' := by
+  obtain ⟨_, ha, _, he⟩ := putEquity_ok h
+  constructor
+  · intro x y i c1 e1 c2 e2 hx hy
+    rw [he] at hx hy
+    by_cases kx : x = a ∧ i = id
+    · simp only [kx, and_self, if_true] at hx
+      injection hx with hx; injection hx with hx1 hx2; subst hx1
+      by_cases ky : y = a ∧ i = id
+      · simp only [ky, and_self, if_true] at hy
+        injection hy with hy; injection hy with hy1 hy2; exact hy1
+      · simp only [ky, if_false] at hy
+        rw [kx.2] at hy
+        exact (h1 y c2 e2 hy).symm
+    · simp only [kx, if_false] at hx
+      by_cases ky : y = a ∧ i = id
+      · simp only [ky, and_self, if_true] at hy
+        injection hy with hy; injection hy with hy1 hy2; subst hy1
+        rw [ky.2] at hx
+        exact h1 x c1 e1 hx
+      · simp only [ky, if_false] at hy
+        exact I.idc x y i c1 e1 c2 e2 hx hy
+  · intro x i c1 e1 r hx hr
+    rw [he] at hx; rw [ha] at hr
+    by_cases kx : x = a ∧ i = id
+    · simp only [kx, and_self, if_true] at hx
+      injection hx with hx; injection hx with hx1 hx2; subst hx1
+      rw [kx.2] at hr ⊢
+      exact h2 r hr
+    · simp only [kx, if_false] at hx
+      exact I.own x i c1 e1 r hx hr
+
+theorem idInv_sameEquity {s s' : St} (he : s'.equity = s.equity)
+    (ha : ∀ x r', s'.assets x = some r' → ∃ r, s.assets x = some r) (I : IdInv s) : IdInv s' := by
+  constructor
+  · intro x y i c1 e1 c2 e2 hx hy
+    rw [he] at hx hy; exact I.idc x y i c1 e1 c2 e2 hx hy
+  · intro x i c e r' hx hr'
+    rw [he] at hx
+    obtain ⟨r, hr⟩ := ha i r' hr'
+    exact I.own x i c e r hx hr
+
+theorem idInv_putSupply {s s' : St} {code : Nat} {v : Int} (h : putSupply s code v = .ok s')
+    (I : IdInv s) : IdInv s' := by
+  obtain ⟨r0, hr0, _, he, _, ha⟩ := putSupply_ok h
+  refine idInv_sameEquity he ?_ I
+  intro x r' hr'
+  rw [ha] at hr'
+  by_cases e : x = code
+  · subst e; exact ⟨r0, hr0⟩
+  · simp only [e, if_false] at hr'; exact ⟨r', hr'⟩
+
+theorem idInv_apply {fixed : Bool} {stable s s' : St} {op : Op} (h : apply fixed stable s op = .ok s')
+    (I : IdInv s) (g : IdOK s op) : IdInv s' := by
+  cases op with
+  | create sd hsh cat dv rp dc fz =>
+    obtain ⟨_, he, _, ha⟩ := create_ok h
+    constructor
+    · intro x y i c1 e1 c2 e2 hx hy
+      rw [he] at hx hy; exact I.idc x y i c1 e1 c2 e2 hx hy
+    · intro x i c e r' hx hr'
+      rw [he] at hx; rw [ha] at hr'
+      by_cases k : i = hsh
+      · subst k; rw [g x] at hx; cases hx
+      · simp only [k, if_false] at hr'; exact I.own x i c e r' hx hr'
+  | issue sd rc hsh code m amt =>
+    obtain ⟨a, r, s1, s2, tid, newEq, _, _, hl, _, h1, h2, h3, hcat⟩ := issue_ok h
+    subst h3
+    obtain ⟨hr, _⟩ := lookup_some hl
+    have I1 := idInv_putSupply h1 I
+    obtain ⟨r1, _, _, he1, _, ha1⟩ := putSupply_ok h1
+    have I2 : IdInv s2 := by
+      refine idInv_putEquity h2 I1 ?_ ?_
+      · intro b c2 e2 hb
+        rw [he1] at hb
+        rcases hcat with ⟨_, ht, _⟩ | ⟨hc, ht, _⟩
+        · subst ht; exact I.own b tid c2 e2 r hb hr
+        · subst ht; rw [(g r hl hc).1 b] at hb; cases hb
+      · intro r' hr'
+        rcases hcat with ⟨_, ht, _⟩ | ⟨hc, ht, _⟩
+        · exact ht.symm
+        · subst ht
+          rw [ha1] at hr'
+          by_cases k : tid = code
+          · exact k.symm
+          · simp only [k, if_false] at hr'; rw [(g r hl hc).2] at hr'; cases hr'
+    exact ⟨I2.idc, I2.own⟩
+  | replenish sd rc code id amt =>
+    obtain ⟨a, r, s1, _, _, hl, _, _, _, _, h1, h2⟩ := replenish_ok h
+    exact idInv_putSupply h2 (idInv_putEquity h1 I (fun b c2 e2 hb => g.1 b c2 e2 hb)
+      (fun r' hr' => (g.2 r' hr').symm))
+  | modify sd code fz =>
+    obtain ⟨r, hl, he, _, hcase⟩ := modify_ok h
+    rcases hcase with rfl | ⟨b, _, ha⟩
+    · exact I
+    · refine idInv_sameEquity he ?_ I
+      intro x r' hr'
+      rw [ha] at hr'
+      by_cases e : x = code
+      · subst e; exact ⟨r, (lookup_some hl).1⟩
+      · simp only [e, if_false] at hr'; exact ⟨r', hr'⟩
+  | transfer sd rc id ck amt =>
+    obtain ⟨am, c0, e0, r0, _, hse, _, _, hr0, _, _, hcase⟩ := transfer_ok h
+    rcases hcase with rfl | hm
+    · exact I
+    · obtain ⟨s1, c', e', h1, hs1, h2⟩ := moveEquity_ok hm
+      -- the state after the credit still satisfies the discipline, and every entry under `id` carries c0
+      have key : IdInv s1 ∧ ∀ b c2 e2, s1.equity b id = some (c2, e2) → c2 = c0 := by
+        rcases h1 with ⟨_, h1⟩ | ⟨_, h1⟩
+        · have hce : (creditEntry s rc id c0 (if r0.divisible = true then am else e0)).1 = c0 := by
+            unfold creditEntry
+            split
+            · rfl
+            · rename_i c2 e2 hq; exact I.idc rc sd id c2 e2 c0 e0 hq hse
+          obtain ⟨_, _, _, he1⟩ := putEquity_ok h1
+          have h1' : putEquity s rc id (c0, (creditEntry s rc id c0 (if r0.divisible = true then am else e0)).2) = .ok s1 := by
+            rw [← hce]; exact h1
+          refine ⟨idInv_putEquity h1' I (fun b c2 e2 hb => I.idc b sd id c2 e2 c0 e0 hb hse)
+            (fun r' hr' => I.own sd id c0 e0 r' hse hr'), ?_⟩
+          intro b c2 e2 hb
+          rw [he1] at hb
+          by_cases k : b = rc ∧ id = id
+          · simp only [k, and_self, if_true] at hb
+            injection hb with hb
+            rw [← hce, hb]
+          · simp only [k, if_false] at hb
+            exact I.idc b sd id c2 e2 c0 e0 hb hse
+        · obtain ⟨_, _, _, he1, _, _⟩ := putSupply_ok h1
+          refine ⟨idInv_putSupply h1 I, ?_⟩
+          intro b c2 e2 hb
+          rw [he1] at hb
+          exact I.idc b sd id c2 e2 c0 e0 hb hse
+      have hc' : c' = c0 := key.2 sd c' e' hs1
+      subst hc'
+      have hassets : ∀ r', s1.assets id = some r' → c' = id := by
+        intro r' hr'
+        exact key.1.own sd id c' e' r' hs1 hr'
+      exact idInv_putEquity h2 key.1 key.2 hassets
+
+theorem idInv_empty : IdInv St.empty := by
+  constructor
+  · intro a b id c1 e1 c2 e2 h; simp [St.empty] at h
+  · intro a id c e r h; simp [St.empty] at h
+
+/-! ## frozen assets do not move -/
+
+/-- `frozen_immovable`: in a state respecting the id discipline, a transaction other than a ModifyAssetTx of
+    asset `x` leaves a frozen asset `x` exactly as it is: same record (supply, flags) and every entry carrying
+    its code, before or after, untouched.  Either variant of the transfer. -/
+theorem frozen_immovable (fixed : Bool) (stable s s' : St) (op : Op) (h : apply fixed stable s op = .ok s')
+    (I : IdInv s) (g : IdOK s op)
+    (x : Nat) (r : AssetRec) (hr : s.assets x = some r) (hf : r.frozen = true)
+    (hop : ∀ sd fz, op ≠ .modify sd x fz) :
+    s'.assets x = some r ∧
+    ∀ a i, ((∃ e, s.equity a i = some (x, e)) ∨ (∃ e, s'.equity a i = some (x, e))) →
+      s'.equity a i = s.equity a i := by
+  cases op with
+  | create sd hsh cat dv rp dc fz =>
+    obtain ⟨hn, he, _, ha⟩ := create_ok h
+    refine ⟨?_, fun a i _ => by rw [he]⟩
+    rw [ha]
+    by_cases e : x = hsh
+    · subst e; rw [hn] at hr; cases hr
+    · simp only [e, if_false]; exact hr
+  | issue sd rc hsh code m amt =>
+    obtain ⟨a, r0, s1, s2, tid, newEq, _, _, hl, hfz, h1, h2, h3, hcat⟩ := issue_ok h
+    subst h3
+    obtain ⟨hr0, _⟩ := lookup_some hl
+    have hx : x ≠ code := by
+      intro e; subst e; rw [hr] at hr0; injection hr0 with hr0; subst hr0; rw [hf] at hfz; cases hfz
+    obtain ⟨_, ha2, _, he2⟩ := putEquity_ok h2
+    obtain ⟨r1, _, _, he1, _, ha1⟩ := putSupply_ok h1
+    refine ⟨?_, ?_⟩
+    · rw [setMeta_assets, ha2, ha1]; simp only [hx, if_false]; exact hr
+    · intro b i hcase
+      rw [setMeta_equity, he2, he1]
+      by_cases k : b = rc ∧ i = tid
+      · exfalso
+        obtain ⟨rfl, rfl⟩ := k
+        rcases hcase with ⟨e, hb⟩ | ⟨e, hb⟩
+        · rcases hcat with ⟨_, ht, _⟩ | ⟨hc, ht, _⟩
+          · subst ht; exact hx (I.own b i x e r0 hb hr0)
+          · subst ht; rw [(g r0 hl hc).1 b] at hb; cases hb
+        · rw [setMeta_equity, he2] at hb
+          simp only [and_self, if_true] at hb
+          injection hb with hb; injection hb with hb1 hb2; exact hx hb1.symm
+      · simp only [k, if_false]
+  | replenish sd rc code id amt =>
+    obtain ⟨a, r0, s1, _, _, hl, hfz, _, _, hold, h1, h2⟩ := replenish_ok h
+    obtain ⟨hr0, _⟩ := lookup_some hl
+    have hx : x ≠ code := by
+      intro e; subst e; rw [hr] at hr0; injection hr0 with hr0; subst hr0; rw [hf] at hfz; cases hfz
+    obtain ⟨_, ha1, _, he1⟩ := putEquity_ok h1
+    obtain ⟨r1, _, _, he2, _, ha2⟩ := putSupply_ok h2
+    refine ⟨?_, ?_⟩
+    · rw [ha2]; simp only [hx, if_false]; rw [ha1]; exact hr
+    · intro b i hcase
+      rw [he2, he1]
+      by_cases k : b = rc ∧ i = id
+      · exfalso
+        obtain ⟨rfl, rfl⟩ := k
+        rcases hcase with ⟨e, hb⟩ | ⟨e, hb⟩
+        · unfold oldEntry at hold; rw [hb] at hold; exact hx hold
+        · rw [he2, he1] at hb
+          simp only [and_self, if_true] at hb
+          injection hb with hb; injection hb with hb1 hb2; exact hx hb1.symm
+      · simp only [k, if_false]
+  | modify sd code fz =>
+    obtain ⟨r0, hl, he, _, hcase⟩ := modify_ok h
+    rcases hcase with rfl | ⟨b, _, ha⟩
+    · exact ⟨hr, fun _ _ _ => rfl⟩
+    · refine ⟨?_, fun a i _ => by rw [he]⟩
+      rw [ha]
+      by_cases e : x = code
+      · subst e; exact absurd rfl (hop sd fz)
+      · simp only [e, if_false]; exact hr
+  | transfer sd rc id ck amt =>
+    obtain ⟨am, c0, e0, r0, _, hse, _, _, hr0, hfz, _, hcase⟩ := transfer_ok h
+    have hx : x ≠ c0 := by
+      intro e; subst e; rw [hr] at hr0; injection hr0 with hr0; subst hr0; rw [hf] at hfz; cases hfz
+    rcases hcase with rfl | hm
+    · exact ⟨hr, fun _ _ _ => rfl⟩
+    · obtain ⟨s1, c', e', h1, hs1, h2⟩ := moveEquity_ok hm
+      obtain ⟨_, ha2, _, he2⟩ := putEquity_ok h2
+      -- after the credit: asset x untouched, only key (rc, id) possibly changed, every entry under id carries c0
+      have key : s1.assets x = some r ∧ (∀ b i, ¬ (b = rc ∧ i = id) → s1.equity b i = s.equity b i) ∧
+          (∀ b c2 e2, s1.equity b id = some (c2, e2) → c2 = c0) := by
+        rcases h1 with ⟨_, h1⟩ | ⟨_, h1⟩
+        · obtain ⟨_, ha1, _, he1⟩ := putEquity_ok h1
+          refine ⟨by rw [ha1]; exact hr, fun b i k => by rw [he1]; simp only [k, if_false], ?_⟩
+          intro b c2 e2 hb
+          rw [he1] at hb
+          by_cases k : b = rc ∧ id = id
+          · simp only [k, and_self, if_true] at hb
+            injection hb with hb
+            have : (creditEntry s rc id c0 (if r0.divisible = true then am else e0)).1 = c0 := by
+              unfold creditEntry
+              split
+              · rfl
+              · rename_i c3 e3 hq; exact I.idc rc sd id c3 e3 c0 e0 hq hse
+            rw [← this, hb]
+          · simp only [k, if_false] at hb
+            exact I.idc b sd id c2 e2 c0 e0 hb hse
+        · obtain ⟨r1, _, _, he1, _, ha1⟩ := putSupply_ok h1
+          refine ⟨by rw [ha1]; simp only [hx, if_false]; exact hr, fun b i _ => by rw [he1], ?_⟩
+          intro b c2 e2 hb
+          rw [he1] at hb
+          exact I.idc b sd id c2 e2 c0 e0 hb hse
+      obtain ⟨k1, k2, k3⟩ := key
+      refine ⟨by rw [ha2]; exact k1, ?_⟩
+      intro b i hcase
+      -- an entry carrying code x cannot sit under id (all of those carry c0 ≠ x)
+      have hi : i ≠ id := by
+        intro e; subst e
+        rcases hcase with ⟨e, hb⟩ | ⟨e, hb⟩
+        · exact hx (I.idc b sd i x e c0 e0 hb hse)
+        · rw [he2] at hb
+          by_cases k : b = sd ∧ i = i
+          · simp only [k, and_self, if_true] at hb
+            injection hb with hb; injection hb with hb1 hb2
+            exact hx (hb1 ▸ (k3 sd c' e' hs1).symm ▸ rfl)
+          · simp only [k, if_false] at hb
+            exact hx (k3 b x e hb)
+      rw [he2]
+      have n1 : ¬ (b = sd ∧ i = id) := fun k => hi k.2
+      have n2 : ¬ (b = rc ∧ i = id) := fun k => hi k.2
+      simp only [n1, if_false]
+      exact k2 b i n2
+
 
 end LemoProofs.C12
